@@ -569,7 +569,7 @@ def oracle(ctx: C.Ctx, cov: C.Coverage, n: Optional[int] = None, seed: Optional[
     out, sigs = [], set()
     seed = ctx.seed if seed is None else seed
     depth = 3 if ctx.tier == "quick" else 4
-    for i, obj in spec_objects(seed, n or ctx.budget(55, 3000), depth):
+    for i, obj in spec_objects(seed, n or ctx.budget(55, 700), depth):
         cov.hit("oracle-object")
         for f in check_object_all(obj, {"seed": seed, "index": i, "depth": depth}):
             if f.sig not in sigs:
